@@ -196,13 +196,8 @@ def _sorted_set_name(f) -> Optional[str]:
 
 
 def _first_offset_name(an, pf, loop1) -> Optional[str]:
-    from .encode_model import inline_locals
-    y = [n for n in ast.walk(pf.node) if isinstance(n, ast.Yield)][0]
-    for pos, e in enumerate(y.value.elts):
-        try:
-            vals = [feval(inline_locals(pf.node, e), {"i": i, "n_args": n}) for i, n in [(8, 3), (20, 1)]]
-        except Exception:
-            continue
-        if vals == [4, 20] and isinstance(loop1.target, ast.Tuple):
-            return loop1.target.elts[pos].id
+    from .c02 import parser_offset_positions
+    roles, _ = parser_offset_positions(pf)
+    if "first" in roles and isinstance(loop1.target, ast.Tuple):
+        return loop1.target.elts[roles["first"]].id
     return None
